@@ -270,6 +270,24 @@ theorem C14_no_replay_any_calls (l : Bool) (env : List Ans) (specs : List CallSp
   rw [(sessionX_eq specs (R.init l) env).1]
   exact session_reported_sublist _ env _ rfl
 
+/-- Two callers at the same moment on a channel with no connection (lazy and not yet connected,
+or the connection was lost) whose next attempt fails with `e`: `tower::buffer` queues the two
+requests and the worker handles each completely before the next, so the FIRST request gets `e` —
+the failure of the attempt its own `poll_ready` ran — and the SECOND triggers a fresh attempt of
+its own: it is served if that one succeeds, and gets that attempt's own failure `e2` (never `e`
+again) if not. -/
+theorem C14_concurrent_callers (r : R) (e e2 : Nat) (rest : List Ans) (he : r.error = none)
+    (hst : r.st = .idle) (hl : (r.hasBeen || r.isLazy) = true) :
+    (session r (.ok :: .err e :: .ok :: .ok :: .ok :: rest) 2).1 = [.err e, .resp (r.made + 2)] ∧
+    (session r (.ok :: .err e :: .ok :: .err e2 :: rest) 2).1 = [.err e, .err e2] := by
+  have h1 := serve_idle_fails r e (.ok :: .ok :: .ok :: rest) he hst hl
+  have h1' := serve_idle_fails r e (.ok :: .err e2 :: rest) he hst hl
+  have h2 := serve_idle_connects { r with st := .idle, made := r.made + 1 } rest he rfl
+  have h3 := serve_idle_fails { r with st := .idle, made := r.made + 1 } e2 rest he rfl hl
+  constructor
+  · simp only [session, h1, h2]
+  · simp only [session, h1', h3]
+
 /-! ## the oracle holds of the model at the two lower levels too -/
 
 /-- For every script, mode and number of calls, what the model does when driven like `Channel`
@@ -362,7 +380,9 @@ theorem C14_connect_failures_are_unavailable (o : Outcome) :
 peer-drops of any length, lazy or eager — what the model lets a caller observe satisfies every
 clause of the oracle `Spec.Reconnect.clauses` (the same decidable predicate the check evaluates on
 the real implementation's output): each call — ordinary, with a zero deadline (`callZero`), or in
-flight when the peer drops the connection (`callDie`) — gets a definite result; an error is UNAVAILABLE, is
+flight when the peer drops the connection (`callDie`), or one of two issued at the same moment
+(`pair`: explainable as two calls in queue order, so the two are never handed the failure of the
+same attempt) — gets a definite result; an error is UNAVAILABLE, is
 given only while no connection exists and the attempt this call triggered failed, and carries
 that attempt's failure (never an older one); a call succeeds whenever a connection is up or the
 endpoint is reachable again; an eager channel whose first attempt fails reports it from `connect`
@@ -474,5 +494,13 @@ example : Net.run true [] [.call, .up, .call, .down, .call, .up, .call] =
 -- the network oracle rejects a channel handed out by an eager connect to a dead port
 example : (Spec.Reconnect.netClauses false [] [.call] { build := .ok, evs := [.error 14] }).all (·.2) = false := by
   decide
+
+-- two callers at once on a lazy channel whose first attempt fails and whose second succeeds: the
+-- first gets the failure of the attempt it triggered, the second is served by its own attempt
+example : E2E.run true true [.refuse, .accept] [.pair] =
+    { build := .ok, buildAttempts := 0, evs := [.pair (.error 14 (some 1)) (.resp 2) 2] } := by decide
+-- the oracle rejects both callers being handed the same failure
+example : Spec.Reconnect.holds true [.refuse, .accept] [.pair]
+    { build := .ok, buildAttempts := 0, evs := [.pair (.error 14 (some 1)) (.error 14 (some 1)) 1] } = false := by decide
 
 end C14
